@@ -112,6 +112,8 @@ pub enum Event {
     HandlerSubscribed { sub: u32 },
     /// a subscription handler created a new observer (index in the observer table) on a node
     HandlerObserved { obs: u32, node: Tag },
+    /// a subscription handler dropped its Var handle right after its write
+    HandlerReleased { sub: u32, var: Tag },
     /// a writer closure dropped its Var handle right after a deferred write
     WriterReleased { by: Tag, var: Tag },
     /// an observer read from inside a node function did not fail with CurrentlyStabilising
